@@ -74,6 +74,8 @@ structure Case where
   udot : List Float
   vq : List Float
   vu : List Float
+  /-- the six `udot` slots unclipped (C05 uses them as a target spatial velocity) -/
+  target : SV Float
 
 def parseCase (toks : List String) : Option Case :=
   match toks with
@@ -84,7 +86,8 @@ def parseCase (toks : List String) : Option Case :=
     | none => none
     | some b =>
       some ⟨b, v3Of ((d.drop 45).take 3), ((d.drop 48).take 6).take b.spec.nu,
-            ((d.drop 54).take 7).take b.spec.nq, ((d.drop 61).take 6).take b.spec.nu⟩
+            ((d.drop 54).take 7).take b.spec.nq, ((d.drop 61).take 6).take b.spec.nu,
+            ⟨v3Of ((d.drop 48).take 3), v3Of ((d.drop 51).take 3)⟩⟩
   | _ => none
 
 def Body.kin (b : Body) (X_GP : Xf Float) (V_GP : SV Float) : BodyKin Float :=
